@@ -45,6 +45,7 @@ struct Problem {
   std::string name;
   int nullity = 0;
   std::string gkf;        // LocalNetwork problems: input text
+  bool corr = false;      // Adj problems: one banded covariance block instead of unit weights
 };
 
 static AdjInputData* make_input(const Problem& p, const std::vector<int>* S) {
@@ -53,8 +54,20 @@ static AdjInputData* make_input(const Problem& p, const std::vector<int>* S) {
   GNU_gama::SparseMatrix<>* A = new GNU_gama::SparseMatrix<>(nz, p.m, p.n);
   for (int i = 0; i < p.m; i++) { A->new_row(); for (int j = 0; j < p.n; j++) if (p.rows[i][j]) A->add_element(p.rows[i][j], j + 1); }
   d->set_mat(A);
-  GNU_gama::BlockDiagonal<>* bd = new GNU_gama::BlockDiagonal<>(p.m, p.m);
-  for (int i = 0; i < p.m; i++) { double one = 1.0; bd->add_block(1, 0, &one); }
+  GNU_gama::BlockDiagonal<>* bd;
+  if (p.corr) {
+    // one block of band width 2 (positive definite, diagonally dominant, position coded): the
+    // homogenisation of the dense algorithms then fills structural zeros of A
+    const int W = std::min(2, p.m - 1);
+    std::vector<double> mem;
+    for (int i = 0; i < p.m; i++) for (int j = i; j < p.m && j <= i + W; j++)
+      mem.push_back(j == i ? 2.0 + 0.25 * (i % 3) : (j == i + 1 ? 0.5 + 0.05 * (i % 2) : 0.2));
+    bd = new GNU_gama::BlockDiagonal<>(1, (int)mem.size());
+    bd->add_block(p.m, W, mem.data());
+  } else {
+    bd = new GNU_gama::BlockDiagonal<>(p.m, p.m);
+    for (int i = 0; i < p.m; i++) { double one = 1.0; bd->add_block(1, 0, &one); }
+  }
   d->set_cov(bd);
   GNU_gama::Vec<> rhs(p.m);
   for (int i = 0; i < p.m; i++) rhs(i + 1) = p.b[i];
@@ -522,6 +535,8 @@ static std::vector<Problem> problems() {
   P.push_back(mk("empty-col", 4, {row(4, {{1, 1}}), row(4, {{1, -1}, {2, 1}}), row(4, {{2, -1}, {4, 1}}), row(4, {{1, -1}, {4, 1}})}, {{3}, {1, 3}}));
   // star with 2 dependent directions (defect 2, 3-nonzero rows)
   P.push_back(mk("tri3", 3, {row(3, {{1, 1}, {2, 1}, {3, 1}}), row(3, {{1, 1}, {2, 1}, {3, 1}})}, {{1, 2}, {2, 3}}));
+  // the same systems with a banded covariance block (explored through GNU_gama::Adj only, which homogenises)
+  { size_t n0 = P.size(); for (size_t i = 0; i < n0; i++) if (P[i].name == "loop5" || P[i].name == "reg4" || P[i].name == "split4") { Problem q = P[i]; q.name += "+corr"; q.corr = true; P.push_back(q); } }
   // LocalNetwork problems (input files generated by data/c04/make.py)
   std::string dir = ctx().opt.count("data") ? ctx().opt["data"] : "/verif/data/c04";
   for (const char* nm : {"net2d", "levfree", "net2dfree"}) {
@@ -576,6 +591,7 @@ int main(int argc, char** argv) {
   for (int pi = 0; pi < nprob; pi++) {
     for (int kind = 0; kind < 6; kind++) {
       if ((kind == 5) != !P[pi].gkf.empty()) continue;
+      if (P[pi].corr && kind != 4) continue;
       int nsub = (kind == 4) ? (1 + (int)P[pi].subsets.size()) : 1;   // Adj: regularisation comes with the input data
       for (int s = 0; s < nsub; s++) {
         unit++;
